@@ -255,7 +255,7 @@ func checkC10(c *Ctx) {
 		}
 	}
 	c.Cov("design_counterexamples", "WriterRestored, LoopReleases, MacroStateFresh, DepthBalanced, ParserFresh, ErrorsNotCached, RefusedCallIsNoOp = FALSE each violate FailureIsInvisible")
-	r, err := c.TLC(TLCOpt{Spec: "Session", Cfg: cfg(c.Pick(3, 4), "{1, 9}", allTrue, true), Workers: 1})
+	r, err := c.TLC(TLCOpt{Spec: "Session", Cfg: cfg(3, "{1, 9}", allTrue, true), Workers: 1})
 	if err != nil {
 		c.Infra(err)
 		return
@@ -269,7 +269,7 @@ func checkC10(c *Ctx) {
 	seen := map[string]bool{}
 	n := 0
 	deadlineBudget := c.Pick(40, 300) // histories containing the (slow) deadline failure
-	stride := c.Pick(24, 60)
+	stride := c.Pick(24, 3) // (histories of 3 operations in both tiers: 4 operations over 27 failure kinds are 12 million behaviours, 80 minutes of TLC output)
 	err = ReadLines(r.Emitted, func(line []byte) error {
 		var g struct {
 			H [][]any `json:"h"`
